@@ -31,6 +31,15 @@ KNOWN_FINDINGS = os.path.join(ROOT, "known_findings.json")
 NCPU = int(os.environ.get("VERIF_JOBS", "0")) or min(16, os.cpu_count() or 1)
 
 
+def short(x: Any, n: int = 200) -> str:
+    """str() that never raises (huge integers) and never gets long"""
+    try:
+        s = str(x)
+    except Exception as ex:  # pylint: disable=broad-except
+        s = f"<unprintable {type(x).__name__}: {type(ex).__name__}>"
+    return s if len(s) <= n else s[:n] + "..."
+
+
 def jdump(obj: Any) -> str:
     return json.dumps(obj, sort_keys=True, default=str)
 
@@ -39,7 +48,7 @@ def sha(obj: Any) -> str:
     return hashlib.sha1(jdump(obj).encode()).hexdigest()[:16]
 
 
-class CaseTimeout(Exception):
+class CaseTimeout(BaseException):
     pass
 
 
@@ -93,6 +102,11 @@ class Run:
         self._known = [k for k in load_known() if k.get("property") == prop and
             k.get("status") == "known"]
         self._seen_viol: set[str] = set()
+        d = os.path.join(REPLAY_DIR, prop)
+        if os.path.isdir(d):  # replays of earlier runs are stale
+            for fn in os.listdir(d):
+                if fn.endswith(".json"):
+                    os.unlink(os.path.join(d, fn))
         self._seen_known: set[str] = set()
 
     # ---- accounting -------------------------------------------------------------------------
